@@ -74,8 +74,13 @@ def stress_case(rng, state, k, nops, cid, expiry=False):
         setup = [{"op": "addFact", "id": "e%d" % i, "fact": {"a": 1, "b": "x", "ttl": "1s"}} for i in range(6)]
         setup += [{"op": "addRule", "id": "er%d" % i, "rule": dict(small_rule(rng), ttl="1s")} for i in range(2)]
         setup.append({"op": "sleep", "ms": 2100})
+    for cl in clients:
+        for o in cl:
+            if o["op"] == "addFact" and rng.random() < 0.4:
+                o["fact"] = dict(o["fact"], ttl="1h")      # preparing such a fact rewrites it (ttl -> expires): on a copy, never on the caller's map
     return {"kind": "c12.conc", "cid": cid, "state": state, "seed": rng.randint(1, 10**6), "jitter_us": rng.choice([20, 80]),
-            "setup": setup, "clients": clients, "timeout_ms": 30000, "group": "stress", "hooks": rng.random() < 0.5}
+            "setup": setup, "clients": clients, "timeout_ms": 30000, "group": "stress", "hooks": rng.random() < 0.5,
+            "share_payloads": rng.random() < 0.5}      # equal facts are sent as the very same Go map by all clients
 
 
 # ------------------------------------------------------------------ running the -race driver
